@@ -64,8 +64,20 @@ struct Env {
         insidelog.push_back({x, r});
         return r;
     }
+    // re-entrancy: the objective itself runs an independent inner swarm (bi-level optimisation) every n-th call
+    int nested_every = 0;
+    static void innerSwarm() {
+        TasOptimization::ParticleSwarmState inner(2, 3);
+        inner.setParticlePositions(std::vector<double>{0.1, 0.2, -0.3, 0.4, 0.5, -0.6}); inner.setParticleVelocities(std::vector<double>{0.05, -0.05, 0.02, 0.01, -0.03, 0.04});
+        uint64_t z = 12345;
+        auto rnd = [&z]() -> double { z = z * 6364136223846793005ULL + 1442695040888963407ULL; return (double)(z >> 11) * (1.0 / 9007199254740992.0); };
+        auto obj = [](const std::vector<double> &x, std::vector<double> &y) { for (size_t i = 0; i < y.size(); i++) y[i] = x[2 * i] * x[2 * i] + x[2 * i + 1] * x[2 * i + 1]; };
+        auto dom = [](const std::vector<double> &x) -> bool { return std::fabs(x[0]) <= 0.45 && std::fabs(x[1]) <= 0.45; }; // some inner particles are outside: the batches differ in size from the outer ones
+        TasOptimization::ParticleSwarm(obj, dom, 0.5, 1.0, 1.0, 2, inner, rnd);
+    }
     long throw_at = -1, fcalls = 0; bool thrown = false; // fault: the objective fails (as the C/Python wrappers do on a callback error) at the n-th call
     void f(const std::vector<double> &xb, std::vector<double> &fv) {
+        if (nested_every > 0 && fcalls % nested_every == 0) { innerSwarm(); if (st) st->inc("fault.objective_runs_an_inner_swarm"); }
         if (fcalls++ == throw_at) { thrown = true; if (st) st->inc("fault.objective_throws"); throw std::runtime_error("simulated failure of the objective callback"); }
         // the batch must be exactly the points the domain test accepted since the previous objective call
         std::vector<double> expect; std::vector<size_t> slots;
@@ -130,6 +142,7 @@ public:
         for (int k = 0; k < 32; k++) { pos.push(Json(w.uniform(-1.5, 1.5))); vel.push(Json(w.chance(0.2) ? 0.0 : w.uniform(-0.5, 0.5))); }
         p["pos"] = pos; p["vel"] = vel;
         p["draw_seed"] = (long long)(w.next() >> 1);
+        p["nested_every"] = w.chance(0.1) ? w.range(1, 3) : 0;
         Json ops = Json::array();
         int ncalls = w.range(1, 4);
         for (int k = 0; k < ncalls; k++) {
@@ -161,6 +174,7 @@ public:
         e.domc = p.has("domc") ? p.at("domc").dvec() : std::vector<double>(); e.domc.resize(4, 0.0);
         e.domr = p.getd("domr", 1.0); e.scale = p.getd("scale", 1.0);
         e.draws = Rng((uint64_t)p.geti("draw_seed", 1));
+        e.nested_every = (int)p.geti("nested_every", 0);
         e.st = &st;
         if (p.has("inject")) for (auto const &x : p.at("inject").a) e.inject.push_back({(long)x.geti("nth"), x.getd("value")});
         S.iw = p.getd("inertia", 0.5); S.cc = p.getd("cognitive", 1.0); S.sc = p.getd("social", 1.0);
